@@ -1,7 +1,7 @@
 (* Props/C18.v — property theorems for C18 only; each closed by `exact` of a lemma proved
    elsewhere, with Print Assumptions beneath. *)
 From Coq Require Import List NArith Bool Sorted Permutation.
-From KV Require Import Bytes Memtable MemtableProofs SkipList SkipListProofs SkipConc.
+From KV Require Import Bytes Memtable MemtableProofs MemtableHeld SkipList SkipListProofs SkipConc.
 Import ListNotations.
 Open Scope N_scope.
 
@@ -239,3 +239,189 @@ Theorem C18_reader_multi : forall fuel h0 ls0 todo sched1 sched2,
        (forall x, In x (ents (m_heap s1) (tl C1)) -> In x out)).
 Proof. exact SkipConc.C18_reader_multi. Qed.
 Print Assumptions C18_reader_multi.
+
+(* ---- Part D: an iterator held while the writer goes on (any interleaving) --------------- *)
+(* MemtableHeld.v.  held_run m h evs: the writer inserts (HWrite e = MemTable.Put/Delete) and
+   the holder calls Next (HNext) in any order; held_yield = where the positioning put the
+   iterator, then where each Next put it; held_mt / held_it = table and iterator at the end.
+   held_wf m0 evs := sorted (mt_entries m0) /\ nodup_nodes (writes evs ++ mt_entries m0):
+   the table is sorted and no (key, seq) pair occurs twice among the nodes present and the
+   entries the writer inserts (the WAL hands out strictly increasing sequence numbers, so the
+   engine's writer never reuses a pair).
+   key_seq_lt a b := bcmp (mk a) (mk b) = Lt \/ (mk a = mk b /\ mseq b < mseq a). *)
+
+(* the live chain behind the node the iterator stands on: an insert leaves it unchanged or adds
+   the new entry at its sorted place *)
+Theorem C18_held_after_insert : forall e x l,
+  StronglySorted (fun a b => elt a b = true) l -> In e l ->
+  (forall z, In z l -> (mk z, mseq z) <> (mk x, mseq x)) ->
+  Memtable.after e (insert x l) = if elt e x then insert x (Memtable.after e l) else Memtable.after e l.
+Proof. exact MemtableHeld.after_insert. Qed.
+Print Assumptions C18_held_after_insert.
+
+(* Next moves to the least visible node of the table AS IT IS NOW strictly behind the current one *)
+Theorem C18_held_next_step : forall m h e,
+  StronglySorted (fun a b => elt a b = true) (mt_entries m) -> h_cur h = Some e ->
+  In e (mt_entries m) ->
+  match h_cur (h_next m h) with
+  | None => forall z, In z (mt_entries m) -> visible (h_snap h) z = true -> ~ elt e z = true
+  | Some y => In y (mt_entries m) /\ visible (h_snap h) y = true /\ elt e y = true /\
+              forall z, In z (mt_entries m) -> visible (h_snap h) z = true -> elt e z = true ->
+                        z = y \/ elt y z = true
+  end.
+Proof. exact MemtableHeld.h_next_step. Qed.
+Print Assumptions C18_held_next_step.
+
+(* well-formed at every moment *)
+Theorem C18_held_table_sorted : forall evs m h, held_wf m evs ->
+  sorted (mt_entries (held_mt m h evs)) /\ nodup_nodes (mt_entries (held_mt m h evs)).
+Proof. exact MemtableHeld.held_mt_ssorted. Qed.
+Print Assumptions C18_held_table_sorted.
+
+(* a. ORDER *)
+Theorem C18_held_first_order : forall m0 evs, held_wf m0 evs ->
+  StronglySorted key_seq_lt (held_yield m0 (h_first m0 (h_new m0)) evs).
+Proof. exact MemtableHeld.held_first_order. Qed.
+Print Assumptions C18_held_first_order.
+
+Theorem C18_held_seek_order : forall t m0 evs, held_wf m0 evs ->
+  StronglySorted key_seq_lt (held_yield m0 (h_seek t m0 (h_new m0)) evs).
+Proof. exact MemtableHeld.held_seek_order. Qed.
+Print Assumptions C18_held_seek_order.
+
+(* from any position; and: no node, no entry twice *)
+Theorem C18_held_order_nodup : forall m h evs, held_wf m evs ->
+  (forall e, h_cur h = Some e -> In e (mt_entries m) /\ visible (h_snap h) e = true) ->
+  sorted (held_yield m h evs) /\ nodup_nodes (held_yield m h evs) /\ NoDup (held_yield m h evs).
+Proof. exact MemtableHeld.held_order_nodup. Qed.
+Print Assumptions C18_held_order_nodup.
+
+(* b. SOUNDNESS, at that time (no hypothesis on the table) *)
+Theorem C18_held_first_step_sound : forall m h y, h_cur (h_first m h) = Some y ->
+  In y (mt_entries m) /\ visible (h_snap h) y = true.
+Proof. exact MemtableHeld.h_first_sound. Qed.
+Print Assumptions C18_held_first_step_sound.
+
+Theorem C18_held_seek_step_sound : forall t m h y, h_cur (h_seek t m h) = Some y ->
+  In y (mt_entries m) /\ visible (h_snap h) y = true /\
+  (sorted (mt_entries m) -> blt (mk y) t = false).
+Proof. exact MemtableHeld.h_seek_sound. Qed.
+Print Assumptions C18_held_seek_step_sound.
+
+Theorem C18_held_next_step_sound : forall m h y, h_cur h <> None -> h_cur (h_next m h) = Some y ->
+  In y (mt_entries m) /\ visible (h_snap h) y = true.
+Proof. exact MemtableHeld.h_next_sound. Qed.
+Print Assumptions C18_held_next_step_sound.
+
+(* b. SOUNDNESS, over the run *)
+Theorem C18_held_first_sound : forall m0 evs y,
+  In y (held_yield m0 (h_first m0 (h_new m0)) evs) ->
+  In y (mt_entries (held_mt m0 (h_first m0 (h_new m0)) evs)) /\
+  visible (mt_snapshot m0) y = true /\
+  (In y (mt_entries m0) \/ In y (writes evs)).
+Proof. exact MemtableHeld.held_first_sound. Qed.
+Print Assumptions C18_held_first_sound.
+
+Theorem C18_held_seek_sound : forall t m0 evs y, held_wf m0 evs ->
+  In y (held_yield m0 (h_seek t m0 (h_new m0)) evs) ->
+  In y (mt_entries (held_mt m0 (h_seek t m0 (h_new m0)) evs)) /\
+  visible (mt_snapshot m0) y = true /\
+  (In y (mt_entries m0) \/ In y (writes evs)) /\
+  blt (mk y) t = false.
+Proof. exact MemtableHeld.held_seek_sound. Qed.
+Print Assumptions C18_held_seek_sound.
+
+(* c. COMPLETENESS: "contains at least everything inserted before they started" *)
+Theorem C18_held_first_complete : forall m0 evs x, held_wf m0 evs ->
+  h_cur (held_it m0 (h_first m0 (h_new m0)) evs) = None ->
+  In x (mt_iter_entries m0) -> In x (held_yield m0 (h_first m0 (h_new m0)) evs).
+Proof. exact MemtableHeld.held_first_complete. Qed.
+Print Assumptions C18_held_first_complete.
+
+Theorem C18_held_seek_complete : forall t m0 evs x, held_wf m0 evs ->
+  h_cur (held_it m0 (h_seek t m0 (h_new m0)) evs) = None ->
+  In x (mt_iter_entries m0) -> blt (mk x) t = false ->
+  In x (held_yield m0 (h_seek t m0 (h_new m0)) evs).
+Proof. exact MemtableHeld.held_seek_complete. Qed.
+Print Assumptions C18_held_seek_complete.
+
+(* d. SNAPSHOT *)
+Theorem C18_held_first_no_future : forall m0 evs w, mt_snapshot m0 <> 0 ->
+  In w (writes evs) -> mt_snapshot m0 < mseq w ->
+  ~ In w (held_yield m0 (h_first m0 (h_new m0)) evs).
+Proof. exact MemtableHeld.held_first_no_future. Qed.
+Print Assumptions C18_held_first_no_future.
+
+Theorem C18_held_seek_no_future : forall t m0 evs w, mt_snapshot m0 <> 0 ->
+  In w (writes evs) -> mt_snapshot m0 < mseq w ->
+  ~ In w (held_yield m0 (h_seek t m0 (h_new m0)) evs).
+Proof. exact MemtableHeld.held_seek_no_future. Qed.
+Print Assumptions C18_held_seek_no_future.
+
+(* the writer is hidden (immutable table, or non-zero snapshot and all new numbers above it):
+   an iterator run to exhaustion shows exactly the snapshot contents *)
+Theorem C18_held_first_exact : forall m0 evs, held_wf m0 evs ->
+  (mt_imm m0 = true \/
+   (mt_snapshot m0 <> 0 /\ Forall (fun w => mt_snapshot m0 < mseq w) (writes evs))) ->
+  h_cur (held_it m0 (h_first m0 (h_new m0)) evs) = None ->
+  held_yield m0 (h_first m0 (h_new m0)) evs = mt_iter_entries m0.
+Proof. exact MemtableHeld.held_first_exact. Qed.
+Print Assumptions C18_held_first_exact.
+
+Theorem C18_held_seek_exact : forall t m0 evs, held_wf m0 evs ->
+  (mt_imm m0 = true \/
+   (mt_snapshot m0 <> 0 /\ Forall (fun w => mt_snapshot m0 < mseq w) (writes evs))) ->
+  h_cur (held_it m0 (h_seek t m0 (h_new m0)) evs) = None ->
+  held_yield m0 (h_seek t m0 (h_new m0)) evs = seek_ge t (mt_iter_entries m0).
+Proof. exact MemtableHeld.held_seek_exact. Qed.
+Print Assumptions C18_held_seek_exact.
+
+(* snapshot 0: the immutable table (writer ignored, whole table shown) ... *)
+Theorem C18_held_first_imm : forall m0 evs, held_wf m0 evs -> mt_imm m0 = true ->
+  held_mt m0 (h_first m0 (h_new m0)) evs = m0 /\
+  mt_snapshot m0 = 0 /\
+  (h_cur (held_it m0 (h_first m0 (h_new m0)) evs) = None ->
+   held_yield m0 (h_first m0 (h_new m0)) evs = mt_entries m0).
+Proof. exact MemtableHeld.held_first_imm. Qed.
+Print Assumptions C18_held_first_imm.
+
+(* ... and the mutable table whose nextSeqNum is still 0: Next shows the live successor,
+   whatever its number (no filtering) *)
+Theorem C18_held_next_unfiltered : forall m h e, h_snap h = 0 -> h_cur h = Some e ->
+  h_cur (h_next m h) = match Memtable.after e (mt_entries m) with [] => None | x :: _ => Some x end.
+Proof. exact MemtableHeld.held_next_unfiltered. Qed.
+Print Assumptions C18_held_next_unfiltered.
+
+(* non-vacuity: writes ahead of and behind the iterator, new versions of the key it stands on *)
+Theorem C18_held_first_ex :
+  held_wf ex_m0 ex_evs /\ writer_hidden ex_m0 ex_evs /\ mt_snapshot ex_m0 = 4 /\
+  mt_iter_entries ex_m0 = [mkM [1] 1 KVal [10]; mkM [3] 2 KVal [30]; mkM [5] 3 KVal [50]] /\
+  held_yield ex_m0 (h_first ex_m0 (h_new ex_m0)) ex_evs =
+    [mkM [1] 1 KVal [10]; mkM [3] 2 KVal [30]; mkM [5] 3 KVal [50]] /\
+  h_cur (held_it ex_m0 (h_first ex_m0 (h_new ex_m0)) ex_evs) = None /\
+  mt_entries (held_mt ex_m0 (h_first ex_m0 (h_new ex_m0)) ex_evs) =
+    [mkM [0] 10 KVal [0]; mkM [1] 1 KVal [10]; mkM [2] 11 KVal [20]; mkM [3] 13 KVal [31];
+     mkM [3] 2 KVal [30]; mkM [4] 9 KVal [40]; mkM [5] 12 KDel []; mkM [5] 3 KVal [50];
+     mkM [7] 14 KVal [70]].
+Proof. exact MemtableHeld.held_first_ex. Qed.
+Print Assumptions C18_held_first_ex.
+
+(* "at least", not "exactly": a write numbered exactly nextSeqNum (= the snapshot) that lands
+   ahead of the iterator is shown *)
+Theorem C18_held_snapshot_boundary_ex :
+  let evs := [HWrite (mkM [4] 4 KVal [40]); HWrite (mkM [2] 5 KVal [20]); HNext; HNext; HNext; HNext] in
+  held_wf ex_m0 evs /\ mt_snapshot ex_m0 = 4 /\
+  held_yield ex_m0 (h_first ex_m0 (h_new ex_m0)) evs =
+    [mkM [1] 1 KVal [10]; mkM [3] 2 KVal [30]; mkM [4] 4 KVal [40]; mkM [5] 3 KVal [50]] /\
+  h_cur (held_it ex_m0 (h_first ex_m0 (h_new ex_m0)) evs) = None.
+Proof. exact MemtableHeld.held_snapshot_boundary_ex. Qed.
+Print Assumptions C18_held_snapshot_boundary_ex.
+
+(* the no-reuse hypothesis is needed by the MODEL (its iterator finds its node by (key, seq)) *)
+Theorem C18_held_reused_pair_boundary :
+  let evs := [HWrite (mkM [1] 1 KVal [11]); HNext; HNext; HNext] in
+  ~ nodup_nodes (writes evs ++ mt_entries ex_m0) /\
+  held_yield ex_m0 (h_first ex_m0 (h_new ex_m0)) evs =
+    [mkM [1] 1 KVal [10]; mkM [1] 1 KVal [10]; mkM [1] 1 KVal [10]; mkM [1] 1 KVal [10]].
+Proof. exact MemtableHeld.held_reused_pair_boundary. Qed.
+Print Assumptions C18_held_reused_pair_boundary.
